@@ -6,7 +6,9 @@ import framework
 from framework import REPO, ROOT
 
 TIE = ["Nsq.Tie.Gate"]
-PROPS = ["Nsq.Props.C11", "Nsq.Props.C11Auth"]
+PROPS = ["Nsq.Props.C11", "Nsq.Props.C11Auth", "Nsq.Props.C11Tls"]
+
+TREE_HAS_F30 = [False]  # set in run(): the regenerated SetOutputBuffer shape (specs/e1_stack.json, Nsq.Gen.WireStack)
 
 DENY_CODES = ("E_AUTH_FIRST", "E_AUTH_FAILED", "E_UNAUTHORIZED", "E_AUTH_DISABLED")
 OPS = ("cfg", "http", "https", "conn", "c", "cx", "cp", "cb", "cz", "x")
@@ -201,8 +203,11 @@ def report(ctx, binp, env, st, label):
         if key in seen_keys:
             continue
         seen_keys.add(key)
+        okey = key
+        if key == "second-identify-cleartext" and TREE_HAS_F30[0]:
+            key = key + ":tree-has-F30"  # the open finding is about the tree before F30 only
         if idx is not None and idx < len(st.ops) and st.stream != "gateia":
-            lines, ok = shrink(ctx, binp, env, st, idx, lambda r, key=key: any(k == key for k, _, _ in r.fails))
+            lines, ok = shrink(ctx, binp, env, st, idx, lambda r, key=okey: any(k == key for k, _, _ in r.fails))
             body = "# C11 oracle failure %s\n# %s\n# replay: ./check C11 --replay <this file>%s\n%s\n" % (
                 key, detail[:600], "" if ok else "  (did not reproduce in isolation: timing or history dependent)",
                 "\n".join(lines))
@@ -299,9 +304,14 @@ def run(ctx):
         "FIN/REQ/TOUCH may do anything to the broker once past their own guards (parameter Ext)",
         "deny_is_fatal and requery_after_ttl are stated for commands that reach CheckAuth (hypothesis: not rejected "
         "for TLS or for their arguments before the check)",
+        "PARTIAL (audit B10): the first clause read literally is false (Props.C11Tls.tls_clause_literal_false: an IDENTIFY "
+        "that does not negotiate TLS is executed on a plaintext connection under --tls-required); tls_clause_partial weakens "
+        "'executed' to 'has an effect outside the connection's own negotiation settings'",
+        "auth TTLs are at most 9223372036 s (beyond, the code's int64 nanosecond product wraps to an EARLIER expiry: "
+        "Props.C11Auth.ttl_exact_and_never_late; Model.Gate uses unbounded integers)",
     ]
     ctx.rule = ("correspondence: one in-process nsqd per policy configuration (tls-required x client-cert policy x "
-                "certificate x auth; 29 configurations incl. 3 that New must refuse), generated connection scenarios "
+                "certificate x auth; 31 configurations incl. 3 that New must refuse), generated connection scenarios "
                 "(IDENTIFY variants with every client certificate kind, AUTH variants, every command with valid and "
                 "malformed arguments, virtual time before/after the TTL, scripted auth answers: HTTP errors, bad JSON, bad "
                 "TTL/permission/regex, empty grants, changes of mind); one line per command = replies, closure, auth-server "
@@ -309,6 +319,9 @@ def run(ctx):
                 "case is distinct by its op line (which carries connection id, virtual time, scripted answer and command), "
                 "non-trivial unless it is bookkeeping (conn/x lines)")
     gen_ok, _ = ctx.gen("gate_facts")
+    ctx.gen("e1_stack")
+    from props.C07 import stack_tree_fixed
+    TREE_HAS_F30[0] = bool(stack_tree_fixed())
     ok, log = ctx.lean_build(TIE + PROPS)
     if not ok:
         ctx.lean_obligation_failed("lake build " + " ".join(TIE + PROPS), log[-1500:])
